@@ -210,6 +210,9 @@ func c13(run *ev.Run) int {
 	var nextID uint64
 	for rep := 0; rep < reps; rep++ {
 		for _, procs := range []int{16, 4, 1} {
+			if run.Saturated() {
+				break
+			}
 			old := runtime.GOMAXPROCS(procs)
 			// The double-release tables of the pool hooks sit behind one mutex, which
 			// orders every pool operation of every goroutine and would hide races
@@ -258,7 +261,7 @@ func c13(run *ev.Run) int {
 			// Cancelled duplex streams get the machine to themselves: under the
 			// heavy mixed load above the cancel usually lands before the response
 			// has started, which exercises nothing.
-			for round := 0; round < run.Pick(12, 40); round++ {
+			for round := 0; round < run.Pick(12, 40) && !run.Saturated(); round++ {
 				for x := 0; x < 3; x++ {
 					wg.Add(1)
 					go func(x int) {
